@@ -218,6 +218,21 @@ IDENTS = ['foo', 'Foo', 'fOO', 'foo_bar', 'fob', '_foo', '__foo', 'bar', 'Bar', 
           'éta', 'Éta', 'param_a', 'param_b', 'quux']
 
 
+DIRECTED_ATTRS = [
+    ("def mk2():\n    class Shape:\n        def area_2d(self):\n            return 1\n        def perimeter(self):\n            return 2\n    return Shape()\n"
+     "def mk3():\n    class Shape:\n        def volume_3d(self):\n            return 1\n        def surface(self):\n            return 2\n    return Shape()\n"
+     "class Cfg:\n    def __init__(self, level):\n        self.level = level\n    def deep(self):\n        return self.level * 2 > 3\n"
+     "def make(cfg):\n    if cfg.deep():\n        return mk2()\n    return mk3()\n"
+     "def make_r(cfg):\n    if cfg.deep():\n        return mk3()\n    return mk2()\n"
+     "obj_a = make(Cfg(5))\nobj_b = make(Cfg(0))\nobj_c = make_r(Cfg(5))\nobj_d = make_r(Cfg(7))\nobj_e = make(Cfg(9))\n",
+     ['obj_a', 'obj_b', 'obj_c', 'obj_d', 'obj_e']),
+    ("class Base:\n    def common(self):\n        return 0\n"
+     "class Sw:\n    def __init__(self, k):\n        self.k = k\n    def on(self):\n        return self.k * 3 > 4\n"
+     "def pick(n):\n    if n.on():\n        class Node(Base):\n            def left_only(self):\n                return 1\n        return Node()\n"
+     "    class Node(Base):\n        def right_only(self):\n            return 2\n    return Node()\nnode_l = pick(Sw(5))\nnode_r = pick(Sw(0))\n", ['node_l', 'node_r']),
+]
+
+
 def gen_program(rng):
     """A small executable program; returns (source, probes) where a probe is
     (line, col, fragment, kind, receiver_expr or None)."""
@@ -400,6 +415,21 @@ def stream_complete(ctx):
             truth = json.loads(p.stdout)
         except Exception:
             continue
+        for r in recvs:
+            src = base + r + '.'
+            ls = src.split('\n')
+            atasks.append((src, len(ls), len(ls[-1]), '', 'attr', r, False))
+            ameta.append((r, truth[r]))
+    # directed: receivers whose value set holds instances of DIFFERENT classes with the SAME simple name (local classes of
+    # two factories, a class re-defined in a branch): every attribute the run-time object has must be offered, whichever
+    # of the same-named classes it comes from
+    for base, recvs in DIRECTED_ATTRS:
+        try:
+            p = subprocess.run([common.PY, '-c', ATTR_RUNNER, json.dumps(recvs)], input=base, text=True,
+                               capture_output=True, timeout=60, env=common.jedi_env())
+            truth = json.loads(p.stdout)
+        except Exception as e:
+            raise RuntimeError('directed attribute program does not run: %r' % (e,))
         for r in recvs:
             src = base + r + '.'
             ls = src.split('\n')
